@@ -248,14 +248,20 @@ impl<T: bytes::BufMut> super::io::WriteFrame<ConnectionCloseFrame> for T {
         match frame {
             ConnectionCloseFrame::App(frame) => {
                 self.put_varint(&frame.error_code);
-                let len = frame.reason.len().min(self.remaining_mut());
+                // leave room for the Reason Phrase Length field that is written next
+                let len_size = VarInt::from_u32(frame.reason.len() as u32).encoding_size();
+                let room = self.remaining_mut().saturating_sub(len_size);
+                let len = frame.reason.len().min(room);
                 self.put_varint(&VarInt::from_u32(len as u32));
                 self.put_slice(&frame.reason.as_bytes()[..len]);
             }
             ConnectionCloseFrame::Quic(frame) => {
                 self.put_varint(&frame.error_kind.into());
                 self.put_varint(&frame.frame_type.into());
-                let len = frame.reason.len().min(self.remaining_mut());
+                // leave room for the Reason Phrase Length field that is written next
+                let len_size = VarInt::from_u32(frame.reason.len() as u32).encoding_size();
+                let room = self.remaining_mut().saturating_sub(len_size);
+                let len = frame.reason.len().min(room);
                 self.put_varint(&VarInt::from_u32(len as u32));
                 self.put_slice(&frame.reason.as_bytes()[..len]);
             }
